@@ -3,6 +3,8 @@ CONSTANTS
   MaxN = 4
   Templates <- TplC17q
   Bundles <- NoBundle
+  Ctxs <- Wide
+  Hists <- NoHist
   BackoffCfgs <- BoCfgs
   Attempts <- BoAttempts
 INVARIANT TypeOK Returned NoLateContact
